@@ -214,11 +214,14 @@ class TwistedEventLoop(EventLoop):
         self._twisted_idle_enabled = True
 
     def _twisted_idle_callback(self) -> None:
-        for handle, callback in list(self._idle_callbacks.items()):
-            # a callback removed by an earlier one in this pass is not called
-            if handle in self._idle_callbacks:
-                callback()
-        self._twisted_idle_enabled = False
+        try:
+            for handle, callback in list(self._idle_callbacks.items()):
+                # a callback removed by an earlier one in this pass is not called
+                if handle in self._idle_callbacks:
+                    callback()
+        finally:
+            # also when a callback raised: the scheduled call is over, the next one has to be scheduled anew
+            self._twisted_idle_enabled = False
 
     def remove_enter_idle(self, handle: int) -> bool:
         """
